@@ -53,6 +53,8 @@ def gen_plan(rng, tier, idx, opts):
     kind = rng.choice(["tdl", "tdl", "tdlmimo", "tdlmimo", "su", "sumimo", "sumimo", "mu", "mumimo"])
     gen = rng.choice(["jakes", "jakes", "rayleigh"])
     Ts = 10 ** rng.uniform(-8, -5)
+    if rng.random() < 0.08:
+        Ts = rng.choice([1.0, 1.5, 2.0, 3.0, 0.5])       # normalised time: delays counted in samples
     if kind in ("su", "sumimo") and rng.random() < 0.12:
         profile = {"default": True}                  # SuChannel() / SuMimoChannel(N): flat Rayleigh channel, Ts = 1
         gen = "default"
@@ -82,6 +84,10 @@ def gen_plan(rng, tier, idx, opts):
             delays = [delays[i] for i in order_]
             powers = [powers[i] for i in order_]
         profile = {"delays": delays, "powers_dB": powers}
+        if rng.random() < 0.3:
+            # the profile is ONE TdlChannelProfile object that was discretised before for another sampling interval (it served
+            # another channel object); the channel under test gets the same object
+            profile["shared_object_first_Ts"] = Ts * rng.choice([1.5, 0.5, 2.0, 2.0 / 3.0])
     Nr = Nt = 1
     if kind in ("tdlmimo", "sumimo", "mumimo"):
         Nr, Nt = rng.randint(1, 3), rng.randint(1, 3)
@@ -153,6 +159,11 @@ def build(plan):
         prof = getattr(fading, "COST259_" + pr["cost259"])
         kw = {"channel_profile": prof, "Ts": Ts}
         raw = (np.array(prof.tap_delays), np.array(prof.tap_powers_linear))
+    elif pr.get("shared_object_first_Ts"):
+        pobj = fading.TdlChannelProfile(np.array(pr["powers_dB"]), np.array(pr["delays"]), "shared")
+        pobj.get_discretize_profile(pr["shared_object_first_Ts"])        # first use of the object, other sampling interval
+        kw = {"channel_profile": pobj, "Ts": Ts}
+        raw = (np.array(pr["delays"]), 10 ** (np.array(pr["powers_dB"]) / 10.0))
     else:
         kw = {"tap_powers_dB": np.array(pr["powers_dB"]), "tap_delays": np.array(pr["delays"]), "Ts": Ts}
         raw = (np.array(pr["delays"]), 10 ** (np.array(pr["powers_dB"]) / 10.0))
